@@ -144,8 +144,18 @@ def Op.episodeOk : Op → Bool
   | .start | .success | .failure | .nextN | .nextP | .curN | .check _ _ => true
   | _ => false
 
+/-- The value a finished update / check returns. -/
+def UPc.rets : UPc → List Ret
+  | .done out => [.upd out]
+  | _ => []
+
+def CPc.rets : CPc → List Ret
+  | .done b => [.bool b]
+  | _ => []
+
 /-- One grant: the chosen thread runs its next section. Returns the values of the calls that
-    finished in this grant. A finished thread does nothing. -/
+    finished in this grant. A finished thread does nothing. (A check that has just finished is
+    removed by `CW.norm`.) -/
 def grant (env : Env) (cfg : Config) (libs : List (String × Bytes)) (chan : Option String) (sc : UpdateScript)
     (cw : CW) : Who → CW × List Ret
   | .A =>
@@ -153,19 +163,16 @@ def grant (env : Env) (cfg : Config) (libs : List (String × Bytes)) (chan : Opt
     | .done _ => (cw, [])
     | pc =>
       let r := ustep env (withChannel cfg chan) (libs.lookup cfg.libapp) sc pc cw.disk
-      ({ cw with upc := r.1, disk := r.2 }, match r.1 with | .done out => [.upd out] | _ => [])
+      ({ cw with upc := r.1, disk := r.2 }, r.1.rets)
   | .B =>
     match cw.bchk with
     | some pc =>
       let r := cstep env cfg pc cw.disk
-      (match r.1 with
-       | .done b => ({ cw with disk := r.2, bchk := none }, [.bool b])
-       | pc' => ({ cw with disk := r.2, bchk := some pc' }, []))
+      ({ cw with disk := r.2, bchk := some r.1 }, r.1.rets)
     | none =>
       match cw.bq with
       | [] => (cw, [])
-      | .check _ resp :: rest => ({ cw with bq := rest, bchk := some (checkAfterCfgPc resp) },
-          match checkAfterCfgPc resp with | .done b => [.bool b] | _ => [])
+      | .check _ resp :: rest => ({ cw with bq := rest, bchk := some (checkAfterCfgPc resp) }, (checkAfterCfgPc resp).rets)
       | op :: rest =>
         let r := step env { disk := cw.disk, config := some cfg, libs := libs } op
         ({ cw with disk := r.1.disk, bq := rest }, [r.2.1])
@@ -247,7 +254,8 @@ def G11.next (g : G11) (w : Who) (rets : List Ret) (pre : View) : G11 :=
   match w with
   | .A => { g with failed := failed, good := good }
   | .B =>
-    if rets.isEmpty then { g with failed := failed, good := good, inCheck := true }
+    if g.bops.isEmpty then g
+    else if rets.isEmpty then { g with failed := failed, good := good, inCheck := true }
     else { g with failed := failed, good := good, inCheck := false, bops := g.bops.tail }
 
 def retNumber : Ret → Option Nat
